@@ -133,7 +133,9 @@ def c03(prog, obs, impl):
             nd = 1 if 'c' in op['dst'] else len(dsl.region_cells(op['dst']['r'], 0))
             need = q * (nd if len(cs) == 1 else 1)
             short = [j for j, c in enumerate(cs) if need > measure(subs, c, b) * (1 + F(1, 10**6)) + F(1, 10**15)]
-            if q > 0 and short and (o['ok'] or o['exc'] != 'ValueError'):
+            # (a single well written as a one-element list has shape (1,): the library refuses that pairing with RuntimeError whatever it holds)
+            odd = any('list' in r and len(r['list']) == 1 for r in (op['src']['r'], op['dst'].get('r', {})))
+            if q > 0 and short and (o['ok'] or (o['exc'] != 'ValueError' and not odd)):
                 fails.append((i, f"well {short[0]} of the source region holds {float(measure(subs, cs[short[0]], b))!r} {b}, {float(need)!r} were asked of it: the transfer "
                                  f"{'was accepted' if o['ok'] else 'raised ' + o['exc'] + ' instead of ValueError'}"))
         if op['op'] == 'fill' and 'c' in op['t'] and op['t']['c'] in dumps:
